@@ -216,6 +216,34 @@ Definition ctx_check (s : site) : bool :=
       end
   end.
 
+(** which conjunct of [ctx_check] fails (used only for the message of a rejection):
+    1 shape not recognised, 2 tail / input operands, 3 symbolic execution of save or restore part
+    failed (push into the red zone, unknown instruction, resume address not on top of the saved
+    area), 4 saved rsp not a multiple of 16 below, 5 saved rsp not below the red zone,
+    6 rsp not restored, 7 callee-saved register not restored, 8 register neither restored nor
+    declared dead, 9 no memory clobber *)
+Definition reasons (s : site) : list Z :=
+  match site_parts (code s) with
+  | None => [1]
+  | Some p =>
+      match p_save p with
+      | None => if tail_ok s p sym_init then [] else [2]
+      | Some (_, r) =>
+          match sym_site p with
+          | None => [3]
+          | Some (t1, t3) =>
+              (if tail_ok s p t1 && input_ok s t1 r then [] else [2]) ++
+              (if sd t1 mod 16 =? 0 then [] else [4]) ++
+              (if RED_ZONE <? sd t1 then [] else [5]) ++
+              (if sd t3 =? 0 then [] else [6]) ++
+              (if forallb (fun x => is_init x (sr t3 x)) callee_saved then [] else [7]) ++
+              (if forallb (fun x => is_rsp x || is_init x (sr t3 x) || declared_dead s x) all_regs
+               then [] else [8]) ++
+              (if clob_mem s then [] else [9])
+          end
+      end
+  end.
+
 (* ------------------------------------------------------------------ *)
 (** * initial contexts (myth_make_context_empty / myth_make_context_voidcall, amd64 branch) *)
 
